@@ -388,6 +388,8 @@ func TestVerifC09(t *testing.T) {
 				parts := strings.SplitN(v.Msg, "\x00", 2)
 				if len(parts) == 2 {
 					r.Violation("map-order:"+seq[0].name+"+"+seq[1].name, parts[1], map[string]any{"composed": src, "alone": ""})
+				} else {
+					r.Violation("failure", vTrunc(v.Msg, 600), map[string]any{"composed": src, "alone": ""})
 				}
 			}
 		}
